@@ -67,6 +67,7 @@ class Translator:
         self.positive = positive
         self.atoms: Dict[str, Term] = {}
         self.pointwise_methods = pointwise_methods
+        self.ufuncs = True
 
     def mk_atom(self, t: Term) -> sp.Expr:
         name = show(t)
@@ -130,6 +131,13 @@ class Translator:
                     return self.tr(t[2][0]) * self.tr(t[2][1])
                 if f == "numpy.divide" and len(t[2]) == 2:
                     return self.tr(t[2][0]) / self.tr(t[2][1])
+            if isinstance(f, str) and self.ufuncs:
+                try:
+                    args = [self.tr(a) for a in t[2]] + [self.tr(v) for _, v in t[3]]
+                    name = f + ("|" + ",".join(n for n, _ in t[3]) if t[3] else "")
+                    return sp.Function(name)(*args)
+                except Exception:
+                    pass
             return self.mk_atom(t)
         if k == "attr" and t[2] == "real":
             return sp.re(self.tr(t[1]))
